@@ -1076,6 +1076,104 @@ def p_logspace_contraction(b):
     b.t(lambda: feinsum("i,ij->i", gi.log(), gij.log(), backend="funsor.einsum.numpy_log"))
 
 
+NONEAGER = (("lazy", lazy), ("reflect", reflect), ("normalize", normalize))
+
+
+def asym_children(b):
+    """Children whose input sets differ in every direction (each has inputs the others lack; the
+    bound/reduced name `j` occurs in only some of them), incl. lazy compound terms and a Gaussian."""
+    xa = b.tensor([("a", 3)], ())
+    xaj = b.tensor([("a", 3), ("j", 3)], ())
+    xjk = b.tensor([("j", 3), ("k", 2)], ())
+    xk = b.tensor([("k", 2)], ())
+    x0 = b.tensor([], ())
+    with lazy:
+        la = xa + Variable("r", Real)           # compound lazy child with a real input
+        lk = xk * xjk
+    b.hold(la, lk)
+    return {"a": xa, "aj": xaj, "jk": xjk, "k": xk, "0": x0, "la": la, "lk": lk}
+
+
+@program
+def p_lazy_constructors(b):
+    """Every term class whose __init__ derives inputs from its children, constructed under lazy /
+    reflect / normalize with asymmetric children; all children are held and re-checked afterwards."""
+    from funsor.terms import Scatter, Approximate, Finitary, Align
+    from funsor.constant import Constant
+    c = asym_children(b)
+    g1 = b.gaussian([("a", 3)], [("x", ())])
+    g2 = b.gaussian([("j", 3)], [("x", ()), ("y", ())])
+    T = 3
+    trans = b.tensor([("time", T), ("a", 3), ("p", 2), ("q", 2)], (), kind="pos")
+    idx = b.tensor([("j", 3)], (), kind="int:4", dtype=4)
+    pt = b.tensor([("a", 3)], ())
+    ld = b.tensor([("k", 2)], ())
+    vj = Variable("j", Bint[3])
+    vk = Variable("k", Bint[2])
+    va = Variable("a", Bint[3])
+    fx = c["a"] + Variable("x_j", Real)
+    b.hold(fx)
+    keys = list(c)
+    for iname, interp in NONEAGER:
+        l, r = (c[k] for k in b.rng.sample(keys, 2))
+        def under(th):
+            def go():
+                with interp:
+                    return th()
+            return b.t(go)
+        for m_, g_ in ((c["a"], c["aj"]), (c["aj"], c["a"]), (c["la"], c["jk"]), (c["k"], c["aj"]), (l, r)):
+            under(lambda: Approximate(ops.logaddexp, m_, g_, frozenset([vj])))
+            under(lambda: m_.approximate(ops.logaddexp, g_, "j"))
+            under(lambda: Binary(ops.add, m_, g_))
+            under(lambda: Contraction(ops.logaddexp, ops.add, frozenset([vj]), m_, g_))
+            under(lambda: Contraction(ops.add, ops.mul, frozenset([vj, vk]), m_, g_, c["k"]))
+            under(lambda: Integrate(m_, g_, frozenset([vj])))
+            under(lambda: Stack("s", (m_, g_)))
+            under(lambda: FTuple((m_, g_)))
+            under(lambda: Finitary(ops.stack, (m_, g_)))
+            under(lambda: Subs(m_, (("a", g_),)) if g_.output == Bint[3] else Subs(m_, (("a", idx),)))
+            under(lambda: Subs(g_, (("j", Variable("a", Bint[3])),)))
+            under(lambda: m_(a=idx))
+        under(lambda: Reduce(ops.add, c["aj"], frozenset([vj, vk])))
+        under(lambda: Reduce(ops.logaddexp, c["la"], frozenset([vj])))
+        under(lambda: Unary(ops.neg, c["la"]))
+        under(lambda: Scatter(ops.add, (("i", idx),), c["aj"], frozenset([vj])))
+        under(lambda: Scatter(ops.add, (("i", idx), ("h", idx)), c["jk"], frozenset([vj])))
+        under(lambda: Independent(fx, "x", "j", "x_j"))
+        under(lambda: Independent(c["aj"] + Variable("x_j", Real), "x", "j", "x_j"))
+        under(lambda: MarkovProduct(ops.add, ops.mul, trans, Variable("time", Bint[T]), {"p": "q"}))
+        under(lambda: MarkovProduct(ops.logaddexp, ops.add, trans.log(), "time", {"p": "q"}))
+        under(lambda: Cat("j", (c["aj"], c["jk"](k=0)), "j"))
+        under(lambda: Cat("c", (c["aj"](j="c"), c["jk"](j="c"))))
+        under(lambda: Lambda(vj, c["aj"]))
+        under(lambda: Lambda(vk, c["aj"]))
+        under(lambda: Lambda(va, c["la"]))
+        under(lambda: Delta("v", pt, ld))
+        under(lambda: Delta((("v", (pt, ld)), ("w", (c["k"], c["0"])))))
+        under(lambda: Delta("v", pt) + g1)
+        under(lambda: g1 + g2)
+        under(lambda: g1 + c["jk"])
+        under(lambda: g2(x=c["aj"]))
+        under(lambda: g2.reduce(ops.logaddexp, "y"))
+        under(lambda: Constant(OrderedDict(z=Real), c["aj"]))
+        under(lambda: Constant(OrderedDict(a=Bint[3], z=Real), c["jk"]))
+        under(lambda: Align(c["aj"], ("j", "a")))
+        under(lambda: c["aj"].align(("j", "a")))
+        under(lambda: c["a"].reduce(ops.add, "j") + c["jk"].reduce(ops.logaddexp, "a"))
+        # re-interpreting terms built above (alpha-renaming re-runs the constructors)
+        with interp:
+            q = b.t(lambda: Approximate(ops.logaddexp, c["la"], c["jk"], frozenset([vj])))
+        if q is not None:
+            b.t(lambda: reinterpret(q))
+            b.t(lambda: q(a=0))
+    # the call shape funsor.adjoint uses: Approximate(sum_op, out_adj, out_adj * arg, reduced_vars)
+    with AdjointTape() as tape:
+        with lazy:
+            e = c["aj"].reduce(ops.logaddexp, "j") + c["a"]
+        out = reinterpret(e)
+    b.t(lambda: tape.adjoint(ops.logaddexp, ops.add, out, (c["aj"], c["a"])))
+
+
 def run_program(name, mon, rng, edge="auto"):
     """Run one program.  Returns (status, info): status in ok | declined | violation | harness-bug."""
     mon.rng = rng          # layout choices of this program's arrays come from its own PRNG (exact replay)
